@@ -1,0 +1,136 @@
+//go:build verif
+
+package memfs
+
+import (
+	"fmt"
+	"sort"
+)
+
+// VerifCheck walks the internal node graph of the file system (all volumes) and returns
+// a description of every structural inconsistency found. It takes no locks and must only
+// be called while no other goroutine uses the file system.
+func (vfs *MemFS) VerifCheck() []string {
+	var out []string
+
+	roots := map[string]*dirNode{"": vfs.rootNode}
+	for v, nd := range vfs.volumes {
+		roots[v] = nd
+	}
+
+	names := make([]string, 0, len(roots))
+	for v := range roots {
+		names = append(names, v)
+	}
+
+	sort.Strings(names)
+
+	seenDirs := map[*dirNode]string{}
+	fileRefs := map[*fileNode][]string{}
+	budget := 100000
+
+	var walk func(path string, dn *dirNode)
+
+	walk = func(path string, dn *dirNode) {
+		if budget <= 0 {
+			return
+		}
+
+		budget--
+
+		if prev, ok := seenDirs[dn]; ok {
+			if prev != path {
+				out = append(out, fmt.Sprintf("directory node reachable as %q and %q", prev, path))
+			}
+
+			return
+		}
+
+		seenDirs[dn] = path
+
+		keys := make([]string, 0, len(dn.children))
+		for k := range dn.children {
+			keys = append(keys, k)
+		}
+
+		sort.Strings(keys)
+
+		for _, k := range keys {
+			p := path + "/" + k
+
+			if k == "" || k == "." || k == ".." {
+				out = append(out, fmt.Sprintf("invalid entry name %q in %q", k, path))
+			}
+
+			switch c := dn.children[k].(type) {
+			case nil:
+				out = append(out, fmt.Sprintf("nil entry %q", p))
+			case *dirNode:
+				if !c.mode.IsDir() {
+					out = append(out, fmt.Sprintf("directory node %q without directory mode %v", p, c.mode))
+				}
+
+				walk(p, c)
+			case *fileNode:
+				if !c.mode.IsRegular() {
+					out = append(out, fmt.Sprintf("file node %q with mode %v", p, c.mode))
+				}
+
+				fileRefs[c] = append(fileRefs[c], p)
+			case *symlinkNode:
+				if c.link == "" {
+					out = append(out, fmt.Sprintf("deleted symlink node still referenced at %q", p))
+				}
+			}
+		}
+	}
+
+	for _, v := range names {
+		if roots[v] == nil {
+			out = append(out, fmt.Sprintf("nil root for volume %q", v))
+
+			continue
+		}
+
+		if v == "" && len(vfs.volumes) > 0 {
+			// the default root is also registered under its volume name.
+			found := false
+
+			for _, nd := range vfs.volumes {
+				if nd == vfs.rootNode {
+					found = true
+				}
+			}
+
+			if found {
+				continue
+			}
+		}
+
+		walk(v, roots[v])
+	}
+
+	if budget <= 0 {
+		out = append(out, "walk budget exhausted: cycle or unbounded tree")
+	}
+
+	type ref struct {
+		fn    *fileNode
+		paths []string
+	}
+
+	refs := make([]ref, 0, len(fileRefs))
+	for fn, paths := range fileRefs {
+		refs = append(refs, ref{fn, paths})
+	}
+
+	sort.Slice(refs, func(i, j int) bool { return refs[i].paths[0] < refs[j].paths[0] })
+
+	for _, r := range refs {
+		if r.fn.nlink != len(r.paths) {
+			out = append(out, fmt.Sprintf("file node %v has nlink %d but %d entries", r.paths, r.fn.nlink, len(r.paths)))
+		}
+	}
+
+	return out
+}
